@@ -1449,6 +1449,10 @@ def setitem(arr, idx, value):
         vf = value_fn(value, arr.shape_, arr.kind)
         assign_all(arr, vf)
         return
+    if isinstance(idx, tuple) and arr.ndim == 1 and any(i is Ellipsis for i in idx):
+        rest = tuple(i for i in idx if i is not Ellipsis)
+        if len(rest) <= 1:
+            return setitem(arr, rest[0] if rest else Ellipsis, value)       # a[..., k] on a 1-d array is a[k]
     if isinstance(idx, tuple):
         sub = getitem_nd(arr, idx) if len(idx) > 1 else None
         if len(idx) == 1:
